@@ -1,0 +1,11 @@
+//go:build verif
+
+package cmd
+
+import "context"
+
+// VerifGcStaleCheckpoint runs one pass of the stale checkpoint collector.
+// Verification hook: compiled only with the build tag "verif".
+func (sc *SyncerCmd) VerifGcStaleCheckpoint(ctx context.Context) {
+	sc.gcStaleCheckpoint(ctx)
+}
